@@ -2,6 +2,7 @@ package p2p
 
 // Registry lists the harness entry points of this package for native replay.
 var Registry = map[string]func([]int64){
-	"HarnessAdmission": func([]int64) { HarnessAdmission() },
-	"HarnessBan":       func([]int64) { HarnessBan() },
+	"HarnessAdmission":     func([]int64) { HarnessAdmission() },
+	"HarnessBan":           func([]int64) { HarnessBan() },
+	"HarnessPeerStateStep": func(a []int64) { HarnessPeerStateStep(int(a[0])) },
 }
